@@ -17,6 +17,7 @@
 static FILE *tr;
 static long lineno = 0;
 static long bootno = 0;
+static long evno = 0;           /* number of trace lines written so far */
 
 typedef struct ifextra {
     lltd_esp32_ctx_t esp;
@@ -110,6 +111,7 @@ static void do_boot(char **tok, int ntok) {
             vp_cfg.name_present, vp_cfg.name_size, vp_cfg.name_salt);
     vp_json_bytes(tr, vp_cfg.hwid, vp_cfg.hwid_len);
     fprintf(tr, "}\n");
+    evno++;
 }
 
 static void do_cfg(char **tok, int ntok) {
@@ -200,6 +202,9 @@ static void peek_last_tx(void) {
 }
 
 /* deliver one frame to one interface through the chosen entry points */
+static long pipe_ev = 0, pipe_idx = 0;   /* provenance of a piped frame (0 = none) */
+static long last_req_ev[VP_MAX_IF + 1];
+
 static void deliver(int id, size_t len, uint8_t fill, const uint8_t *pre, size_t npre, int eq, int all) {
     vif *v = vp_if[id];
     if (!v) die("interface not booted");
@@ -249,8 +254,11 @@ static void deliver(int id, size_t len, uint8_t fill, const uint8_t *pre, size_t
     fprintf(tr, "{\"e\":\"req\",\"ln\":%ld,\"ifc\":%d,\"eq\":%d,\"all\":%d,\"ev\":%d,\"len\":%zu,\"fill\":%u,\"b\":",
             lineno, id, eq, all, ev, len, fill);
     vp_json_bytes(tr, buf, keep);
+    fprintf(tr, ",\"pipe\":[%ld,%ld]", pipe_ev, pipe_idx);
+    last_req_ev[id] = evno + 1;
     fprintf(tr, ",\"out\":%s,\"live\":%ld,\"live0\":%ld,\"bytes\":%ld,\"flt\":%u,\"gf\":%u,\"na\":%ld,\"ns\":%ld}\n",
             vp_out_json(), v->live, live0, v->bytes, fired, gf, aseq, sseq);
+    evno++;
     fflush(tr);
     free(buf);
 }
@@ -278,7 +286,7 @@ static void do_drain(char **tok, int ntok, int large) {
     size_t len = (size_t)strtoul(tok[3], NULL, 0);
     uint8_t fill = (uint8_t)strtoul(tok[4], NULL, 0);
     size_t npre = parse_hex(tok[5], framebuf, sizeof framebuf);
-    if (npre < 36) die("DRAIN frame too short");
+    if (npre < (large ? 36u : 32u)) die("DRAIN frame too short");
     unsigned off = 0;
     for (long i = 0; i < max; i++) {
         if (large) { framebuf[34] = (uint8_t)(off >> 8); framebuf[35] = (uint8_t)off; }
@@ -300,6 +308,33 @@ static void do_drain(char **tok, int ntok, int large) {
         framebuf[30] = (uint8_t)(seq >> 8);
         framebuf[31] = (uint8_t)seq;
     }
+}
+
+/* PIPE a b fill : every frame interface a transmitted while serving its last request is
+ * delivered, unmodified, to interface b */
+static void do_pipe(char **tok, int ntok) {
+    if (ntok < 3) die("PIPE needs: a b [fill]");
+    int a = atoi(tok[1]), b = atoi(tok[2]);
+    uint8_t fill = ntok > 3 ? (uint8_t)strtoul(tok[3], NULL, 0) : 0;
+    if (!vp_if[a] || !vp_if[b]) die("interface not booted");
+    int n = vp_ntx;
+    vp_txrec *copy = calloc((size_t)(n ? n : 1), sizeof *copy);
+    for (int i = 0; i < n; i++) {
+        copy[i].n = vp_txs[i].n;
+        copy[i].item = vp_txs[i].item;
+        copy[i].b = malloc(copy[i].n ? copy[i].n : 1);
+        memcpy(copy[i].b, vp_txs[i].b, copy[i].n);
+    }
+    long src_ev = last_req_ev[a];
+    for (int i = 0; i < n; i++) {
+        pipe_ev = src_ev;
+        pipe_idx = copy[i].item;
+        deliver(b, copy[i].n, fill, copy[i].b, copy[i].n, 0, 0);
+        free(copy[i].b);
+    }
+    pipe_ev = 0;
+    pipe_idx = 0;
+    free(copy);
 }
 
 /* FLOOD id n seed : n Probes with pairwise distinct real sources addressed to the
@@ -336,6 +371,7 @@ static void do_flood(char **tok, int ntok) {
     free(buf);
     fprintf(tr, "{\"e\":\"flood\",\"ln\":%ld,\"ifc\":%d,\"n\":%ld,\"max1\":%ld,\"max2\":%ld,\"live\":%ld,\"bytes\":%ld,\"txs\":%ld}\n",
             lineno, id, n, max1, max2, v->live, v->bytes, txs);
+    evno++;
     fflush(tr);
 }
 
@@ -360,6 +396,7 @@ int main(int argc, char **argv) {
         else if (!strcmp(tok[0], "DRAIN")) do_drain(tok, ntok, 0);
         else if (!strcmp(tok[0], "LDRAIN")) do_drain(tok, ntok, 1);
         else if (!strcmp(tok[0], "FLOOD")) do_flood(tok, ntok);
+        else if (!strcmp(tok[0], "PIPE")) do_pipe(tok, ntok);
         else if (!strcmp(tok[0], "ADV")) vp_now_ms += strtoull(tok[1], NULL, 0);
         else if (!strcmp(tok[0], "FAULT")) {
             plan_alloc = kvl(tok, ntok, "alloc", 0);
@@ -373,6 +410,7 @@ int main(int argc, char **argv) {
             plan_alloc = 0; plan_sticky = 0; plan_send = 0; plan_send_all = 0; plan_get = 0;
         } else if (!strcmp(tok[0], "MARK")) {
             fprintf(tr, "{\"e\":\"mark\",\"ln\":%ld,\"name\":\"%s\"}\n", lineno, ntok > 1 ? tok[1] : "");
+            evno++;
         } else die("unknown directive");
     }
     fprintf(tr, "{\"e\":\"end\",\"ln\":%ld}\n", lineno);
